@@ -228,7 +228,11 @@ def run(tier):
         srcs = ["a " + CS + " c " + CE + " b", "a " + CS + " c " + CE, CS + CE, "a " + CS + " c", "a " + CS, VS + " 1 " + VE, "x" + VS + "1" + VE, VS + " 1", VS,
                 BS + " if 1 " + BE + "x" + BS + " endif " + BE, "a " + BS + " if 1 " + BE, BS, "a" + BS + "- raw -" + BE + " r " + BS + "- endraw -" + BE + "b",
                 "a " + CS + "- c -" + CE + " b", "\u65e5" + CS + "\u65e5" + CE + "\u65e5", "a" + CE + VE + BE, CS + " " + CE[:1], "a " + VS + "- 1 -" + VE + " \u00e9"]
-        ajobs.append({"cfg": {"delims": d}, "steps": [{"op": "render_str", "src": s_, "auto": False} for s_ in srcs] + [{"op": "add", "tpls": [["t", srcs[0]]]}]})
+        # a refused call leaves the instance as it was: it goes on lexing (with the default set), the same sources and some
+        # written with the default delimiters
+        dflt = ["a {# c #} b {{ 1 + 1 }}{% if 1 %}x{% endif %}", "{# c #}", "a {#- c -#} b", "{% raw %}{{ x }}{% endraw %}"]
+        ajobs.append({"cfg": {"delims": d, "delims_soft": True}, "steps": [{"op": "delims_state"}] + [{"op": "render_str", "src": s_, "auto": False} for s_ in srcs + dflt]
+                      + [{"op": "add", "tpls": [["t", srcs[0]], ["u", dflt[0]]]}]})
         ameta.append((["delimiter set", v["ok"]], "custom", json.dumps(d)))
     ares = vp.run_jobs(ajobs, tag="c06-atoms", timeout=3000, may_abort=True)
     for (seq, ds, src), rr in zip(ameta, ares):
@@ -238,7 +242,10 @@ def run(tier):
             C.violation({"kind": "atoms", "src": src, "delims": ds}, "panic/abort on source %r under %s delimiters: %s" % (src, ds, [y.get("msg") or y.get("rc") for y in rr if y.get("panic") or y.get("abort")]),
                         {"src": src, "delims": DSETS.get(ds, src)})
         elif seq[0] == "delimiter set":
-            accepted = not (len(rr) == 1 and rr[0].get("kind") == "Config")
+            accepted = not rr[0].get("rejected")
+            if not accepted and not (rr[-5].get("ok") and rr[-5].get("out") == "a  b 2x" and rr[-4].get("out") == "" and rr[-3].get("out") == "ab" and rr[-2].get("out") == "{{ x }}"):
+                C.violation({"kind": "delimiters-after-refusal", "delims": src}, "after set_delimiters refused %s the instance no longer lexes with the default set: %s" % (src, [y.get("out", y.get("msg")) for y in rr[-5:-1]]),
+                            {"delims": json.loads(src), "result": rr[-5:]})
             if accepted != seq[1]:
                 C.violation({"kind": "delimiter-validation", "delims": src}, "set_delimiters %s the set %s; the rule (six delimiters of exactly 2 bytes, three different start delimiters) %s it" % (
                     "accepts" if accepted else "refuses", src, "accepts" if seq[1] else "refuses"), {"delims": json.loads(src), "result": rr[:1]})
